@@ -4,6 +4,7 @@ package bigbuff
 
 import (
 	"context"
+	"errors"
 	"runtime"
 	"strconv"
 	"strings"
@@ -120,6 +121,7 @@ func init() {
 	register("C20T", func(h *hctx) {
 		attemptFails = 0
 		attemptConsts(h)
+		attemptPromptness(h)
 		race := h.pi("race", 4)
 		for i := 0; i < h.n; i++ {
 			if attemptCutShort(h, i) {
@@ -181,8 +183,20 @@ func attemptK1Case(h *hctx, id int) {
 	if fast {
 		rate = time.Duration(1000+h.rng.Intn(2001)) * time.Microsecond
 	}
-	ctx, cancel := context.WithCancel(context.Background())
+	// how the context ends (the model's cancel step): explicit cancel, or a context that reports DeadlineExceeded or an
+	// error of its own; a pre-cancelled case may also use a real deadline in the past
+	kind := h.rng.Intn(4)
+	pre := h.rng.Intn(6) == 0
+	ctx, cancel := attemptNewCtx(kind)
+	if pre && h.rng.Intn(3) == 0 {
+		cancel()
+		var cf context.CancelFunc
+		ctx, cf = context.WithDeadline(context.Background(), time.Now().Add(-time.Second))
+		cancel = func() { cf() }
+		kind = 4
+	}
 	defer cancel()
+	h.count("k1_ctxkind_"+strconv.Itoa(kind), 1)
 	base, _ := attemptProducers()
 	var ops, outs [][]int
 	cancelled := false
@@ -193,7 +207,7 @@ func attemptK1Case(h *hctx, id int) {
 		cancel()
 		cancelled = true
 		if !attemptWaitGone(base, settleDeadline) {
-			attemptMonitor(h, "%s: producer goroutine still alive %v after cancel (count=%d rate=%v)", caseid(), settleDeadline, count, rate)
+			attemptMonitor(h, "%s: producer goroutine still alive %v after the context ended (count=%d rate=%v ctxkind=%d)", caseid(), settleDeadline, count, rate, kind)
 		}
 		ops = append(ops, []int{1})
 		outs = append(outs, []int{1})
@@ -245,7 +259,7 @@ func attemptK1Case(h *hctx, id int) {
 		}
 	}
 
-	if h.rng.Intn(6) == 0 {
+	if pre {
 		doCancel()
 		h.count("k1_precancelled", 1)
 	}
@@ -306,6 +320,7 @@ func attemptK1Case(h *hctx, id int) {
 // ---------------------------------------------------------------------------------------------------------------------
 type attemptParams struct {
 	count, pace, slowK, plan, j int
+	endKind                     int // 0 WithCancel | 1..3 attemptNewCtx kinds | 4 real WithTimeout / WithDeadline
 	rate, off, deadline         time.Duration
 	cancelBeforeFirst, race     bool
 }
@@ -315,7 +330,28 @@ type attemptParams struct {
 type attemptCtx struct {
 	mu   sync.Mutex
 	done chan struct{}
+	end  error // what Err reports once Done is closed (nil: context.Canceled)
 	err  error
+}
+
+var errAttemptEnded = errors.New("attempt harness: context ended for a reason of its own")
+
+// attemptNewCtx makes a context that ends, when its cancel function is called, in one of the ways a context can end:
+// kind 0 context.WithCancel | 1 custom, Canceled | 2 custom, DeadlineExceeded | 3 custom, an error of its own.
+func attemptNewCtx(kind int) (context.Context, func()) {
+	switch kind {
+	case 0:
+		return context.WithCancel(context.Background())
+	case 2:
+		fc := &attemptCtx{done: make(chan struct{}), end: context.DeadlineExceeded}
+		return fc, fc.cancel
+	case 3:
+		fc := &attemptCtx{done: make(chan struct{}), end: errAttemptEnded}
+		return fc, fc.cancel
+	default:
+		fc := &attemptCtx{done: make(chan struct{})}
+		return fc, fc.cancel
+	}
 }
 
 func (c *attemptCtx) Deadline() (time.Time, bool)   { return time.Time{}, false }
@@ -329,7 +365,10 @@ func (c *attemptCtx) Err() error {
 func (c *attemptCtx) cancel() {
 	c.mu.Lock()
 	if c.err == nil {
-		c.err = context.Canceled
+		c.err = c.end
+		if c.err == nil {
+			c.err = context.Canceled
+		}
 		close(c.done)
 	}
 	c.mu.Unlock()
@@ -337,7 +376,8 @@ func (c *attemptCtx) cancel() {
 
 type attemptObs struct {
 	nrecv, nafter, maxLen                                            int
-	cancelledBeforeClose, closedSeen, firstImm, sorted, exited, late bool
+	cancelledBeforeClose, closedSeen, firstImm, sorted, exited, zero bool
+	pre                                                              bool // the context was done before LinearAttempt checked it
 }
 
 func attemptTimedCase(h *hctx, id int, race bool) {
@@ -367,7 +407,23 @@ func attemptTimedCase(h *hctx, id int, race bool) {
 	default:
 		p.plan = 4
 	}
+	switch r := rng.Intn(100); {
+	case r < 30:
+		p.endKind = 0
+	case r < 40:
+		p.endKind = 1
+	case r < 60:
+		p.endKind = 2
+	case r < 75:
+		p.endKind = 3
+	default:
+		p.endKind = 4
+		if p.plan == 2 || p.plan == 3 {
+			p.endKind = 2 // the receiver decides the instant: a custom context that reports DeadlineExceeded
+		}
+	}
 	if race {
+		p.endKind = 1 + rng.Intn(3)
 		// a tick is pending at every select (periods down to 1ns), the receiver spins on non-blocking receives, and the
 		// cancellation is issued by the receiver itself after its j-th value (or by a timer)
 		p.race = true
@@ -397,6 +453,7 @@ func attemptTimedCase(h *hctx, id int, race bool) {
 		h.count("t_pace_"+[]string{"prompt", "slow", "absent"}[p.pace], 1)
 		h.count("t_plan_"+[]string{"never", "timer", "afterj", "aftercall", "precancelled"}[p.plan], 1)
 	}
+	h.count("t_ctxkind_"+strconv.Itoa(p.endKind), 1)
 
 	o := attemptRunTimed(p)
 	if !o.sorted {
@@ -422,10 +479,10 @@ func attemptTimedCase(h *hctx, id int, race bool) {
 	if !o.cancelledBeforeClose && o.closedSeen {
 		h.count("t_cases_completed", 1)
 	}
-	pre := p.plan == 4
+	pre := o.pre
 	desc := func() string {
 		return caseid + " count=" + strconv.Itoa(p.count) + " rate=" + p.rate.String() + " pace=" + strconv.Itoa(p.pace) +
-			" plan=" + strconv.Itoa(p.plan) + " nrecv=" + strconv.Itoa(o.nrecv) + " nafter=" + strconv.Itoa(o.nafter) +
+			" plan=" + strconv.Itoa(p.plan) + " ctxkind=" + strconv.Itoa(p.endKind) + " nrecv=" + strconv.Itoa(o.nrecv) + " nafter=" + strconv.Itoa(o.nafter) +
 			" maxlen=" + strconv.Itoa(o.maxLen)
 	}
 	if o.nrecv > p.count {
@@ -438,7 +495,7 @@ func attemptTimedCase(h *hctx, id int, race bool) {
 		attemptMonitor(h, "channel not closed (next receive did not complete within %v): %s", p.deadline, desc())
 	}
 	if o.nafter > 2 {
-		attemptMonitor(h, "more than two values received by receives begun after cancel() returned: %s", desc())
+		attemptMonitor(h, "more than two values received by receives begun after the context was done: %s", desc())
 	}
 	if !pre && !o.firstImm {
 		attemptMonitor(h, "first value not available immediately after LinearAttempt returned: %s", desc())
@@ -446,7 +503,11 @@ func attemptTimedCase(h *hctx, id int, race bool) {
 	if pre && o.nrecv > 0 {
 		attemptMonitor(h, "values delivered although the context was cancelled before the call: %s", desc())
 	}
-	if !o.sorted {
+	if o.zero {
+		attemptMonitor(h, "a zero time.Time was delivered: %s", desc())
+		o.sorted = false
+	}
+	if !o.sorted && !o.zero {
 		attemptMonitor(h, "timestamps decreased by more than half a period, reproducibly: %s", desc())
 	}
 	if !o.exited {
@@ -461,27 +522,48 @@ func attemptTimedCase(h *hctx, id int, race bool) {
 
 // attemptRunTimed uses one channel of LinearAttempt from the call to the close, as laid out by p, and reports what it saw.
 func attemptRunTimed(p attemptParams) (o attemptObs) {
-	ctx, cancel := context.WithCancel(context.Background())
-	if p.race {
-		cancel()
-		fc := &attemptCtx{done: make(chan struct{})}
-		ctx, cancel = fc, fc.cancel
+	var ctx context.Context
+	var cancel func()
+	timerEnds := false // the context ends by its own deadline: no canceller needed
+	if p.endKind == 4 {
+		var cf context.CancelFunc
+		switch p.plan {
+		case 1:
+			if p.off%2 == 0 {
+				ctx, cf = context.WithTimeout(context.Background(), p.off)
+			} else {
+				ctx, cf = context.WithDeadline(context.Background(), time.Now().Add(p.off))
+			}
+			timerEnds = true
+		case 4:
+			ctx, cf = context.WithDeadline(context.Background(), time.Now().Add(-time.Millisecond))
+			timerEnds = true
+		default:
+			ctx, cf = context.WithTimeout(context.Background(), time.Hour)
+		}
+		cancel = func() { cf() }
+	} else {
+		ctx, cancel = attemptNewCtx(p.endKind)
 	}
-	var cancelInvoked, cancelDone atomic.Bool
 	var cancelOnce sync.Once
-	doCancel := func() {
-		cancelOnce.Do(func() {
-			cancelInvoked.Store(true)
-			cancel()
-			cancelDone.Store(true)
-		})
-	}
+	doCancel := func() { cancelOnce.Do(cancel) }
 	defer cancel()
+	// "the context is done" as any party can observe it: Err() != nil (it implies that Done is closed)
+	ctxDone := func() bool { return ctx.Err() != nil }
 	base, _ := attemptProducers()
 	if p.plan == 4 {
-		doCancel()
+		if timerEnds {
+			<-ctx.Done()
+		} else {
+			doCancel()
+		}
 	}
+	doneBefore := ctxDone()
 	c := LinearAttempt(ctx, p.rate, p.count)
+	doneAfter := ctxDone()
+	firstLen := len(c)
+	// a deadline may expire while LinearAttempt runs: then either outcome of its check is right, and what it returned tells which
+	o.pre = doneBefore || (doneAfter && firstLen == 0)
 
 	// len(c) sampler
 	var maxLen atomic.Int32
@@ -510,7 +592,7 @@ func attemptRunTimed(p attemptParams) (o attemptObs) {
 			time.Sleep(40 * time.Microsecond)
 		}
 	}()
-	if p.plan == 1 {
+	if p.plan == 1 && !timerEnds {
 		wg.Add(1)
 		go func() {
 			defer wg.Done()
@@ -532,7 +614,9 @@ func attemptRunTimed(p attemptParams) (o attemptObs) {
 		if after {
 			o.nafter++
 		}
-		if o.nrecv > 1 && p.rate >= time.Millisecond && last.Sub(v) > p.rate/2 {
+		if v.IsZero() {
+			o.zero = true
+		} else if o.nrecv > 1 && p.rate >= time.Millisecond && last.Sub(v) > p.rate/2 {
 			o.sorted = false
 		}
 		last = v
@@ -545,7 +629,7 @@ func attemptRunTimed(p attemptParams) (o attemptObs) {
 	}
 	// the first value must be there without waiting
 	{
-		f := cancelDone.Load()
+		f := ctxDone()
 		select {
 		case v, ok := <-c:
 			if ok {
@@ -577,7 +661,7 @@ func attemptRunTimed(p attemptParams) (o attemptObs) {
 			// spin: every attempt is a receive of its own, begun after reading the flag
 			start := time.Now()
 			for spins := 1; ; spins++ {
-				f := cancelDone.Load()
+				f := ctxDone()
 				select {
 				case v, ok := <-c:
 					if ok {
@@ -596,7 +680,7 @@ func attemptRunTimed(p attemptParams) (o attemptObs) {
 			}
 			continue
 		}
-		f := cancelDone.Load()
+		f := ctxDone()
 		t := time.NewTimer(p.deadline)
 		select {
 		case v, ok := <-c:
@@ -610,7 +694,7 @@ func attemptRunTimed(p attemptParams) (o attemptObs) {
 		}
 		t.Stop()
 	}
-	o.cancelledBeforeClose = cancelInvoked.Load()
+	o.cancelledBeforeClose = ctxDone()
 	doCancel()
 	o.exited = attemptWaitGone(base, p.deadline)
 	close(stop)
@@ -618,4 +702,103 @@ func attemptRunTimed(p attemptParams) (o attemptObs) {
 	sample()
 	o.maxLen = int(maxLen.Load())
 	return
+}
+
+// ---------------------------------------------------------------------------------------------------------------------
+// promptness: "closed promptly after the context is cancelled ... the producing goroutine always exits" must not depend
+// on the rate. A batch of channels with a LARGE rate (300-500 ms) and an absent receiver (the buffer stays full, so the
+// first tick cannot be forwarded); a few milliseconds after that tick was due every context is ended; a bound far below
+// the rate (40 ms) later no producer goroutine may be left. To be immune to machine load a failing batch is re-run and
+// reported only if three consecutive runs fail.
+// ---------------------------------------------------------------------------------------------------------------------
+type attemptPromptCase struct {
+	count, kind int
+	lead        time.Duration
+	firstLen    int
+	c           <-chan time.Time
+	cancelledAt time.Time
+}
+
+func attemptPromptness(h *hctx) {
+	n := h.pi("prompt", 6)
+	if n <= 0 {
+		return
+	}
+	const bound = 40 * time.Millisecond
+	rate := time.Duration(300+h.rng.Intn(201)) * time.Millisecond
+	cases := make([]*attemptPromptCase, n)
+	for i := range cases {
+		cases[i] = &attemptPromptCase{count: 2 + h.rng.Intn(5), kind: h.rng.Intn(4), lead: time.Duration(4+h.rng.Intn(12)) * time.Millisecond}
+	}
+	var alive int
+	ok := false
+	for try := 1; try <= 3 && !ok; try++ {
+		base, _ := attemptProducers()
+		var wg sync.WaitGroup
+		var cancels []func()
+		var mu sync.Mutex
+		for _, pc := range cases {
+			wg.Add(1)
+			go func(pc *attemptPromptCase) {
+				defer wg.Done()
+				ctx, cancel := attemptNewCtx(pc.kind)
+				mu.Lock()
+				cancels = append(cancels, cancel)
+				mu.Unlock()
+				t0 := time.Now()
+				pc.c = LinearAttempt(ctx, rate, pc.count)
+				pc.firstLen = len(pc.c)
+				time.Sleep(time.Until(t0.Add(rate + pc.lead)))
+				cancel()
+				pc.cancelledAt = time.Now()
+			}(pc)
+		}
+		wg.Wait()
+		last := cases[0].cancelledAt
+		for _, pc := range cases {
+			if pc.cancelledAt.After(last) {
+				last = pc.cancelledAt
+			}
+		}
+		time.Sleep(time.Until(last.Add(bound)))
+		m, _ := attemptProducers()
+		alive = m - base
+		ok = alive <= 0
+		h.count("p_batches", 1)
+		if !ok {
+			h.count("p_batches_failed", 1)
+		}
+		// let the stragglers finish so that the drain below is deterministic and nothing leaks into the next cases
+		attemptWaitGone(base, 2*time.Second)
+		for _, cf := range cancels {
+			cf()
+		}
+	}
+	if !ok {
+		attemptMonitor(h, "%d producer goroutine(s) still alive %v after their contexts ended (rate=%v, absent receiver, context ended %v..%v after "+
+			"the first tick was due), in 3 consecutive runs: the close must be prompt whatever the rate", alive, bound, rate,
+			4*time.Millisecond, 16*time.Millisecond)
+	}
+	for i, pc := range cases {
+		nvals, closed := 0, false
+	drain:
+		for k := 0; k < pc.count+4; k++ {
+			select {
+			case _, o := <-pc.c:
+				if !o {
+					closed = true
+					break drain
+				}
+				nvals++
+			default:
+				break drain
+			}
+		}
+		if !closed {
+			attemptMonitor(h, "promptness case %d: channel not closed although the context ended more than %v ago (rate=%v count=%d ctxkind=%d)",
+				i, bound, rate, pc.count, pc.kind)
+		}
+		h.line("F attempt_obs p-%d-%d %d %d %d %d 0 1 %d %d 1 %d | 1", h.seed, i, pc.count, nvals, pc.firstLen, nvals, attemptB2i(closed),
+			attemptB2i(pc.firstLen == 1), attemptB2i(ok))
+	}
 }
